@@ -112,6 +112,7 @@ func checkC11(c *Ctx) {
 	checkC11Reader(c, p)
 	checkC11GlobalWrite(c, p)
 	checkC11OutputDefined(c, p)
+	checkC11ShareField(c, p)
 }
 
 // sharedSource: v is (derived from) a package-level variable or crypto/elliptic's shared CurveParams.
@@ -1134,5 +1135,58 @@ func checkC11OutputDefined(c *Ctx, p *Program) {
 		} else {
 			c.ok("C11.outputdefined", what, fmt.Sprintf("fields read %v are each assigned first by an instruction that does not read them", keysOf(whole.reads)), p.fnPos(f))
 		}
+	}
+}
+
+// checkC11ShareField: a method never stores into a field of its receiver a slice, map or pointer it
+// loaded from a field of another object (an operand, or an object obtained from one): the two objects
+// would share mutable storage, so modifying one (in-place operations such as CMov) changes the other.
+func checkC11ShareField(c *Ctx, p *Program) {
+	var fs []*ssa.Function
+	for f := range p.AllFuncs {
+		if f.Blocks != nil && isCirclFunc(f) && sourceFunc(f) && f.Signature.Recv() != nil && f.Parent() == nil {
+			fs = append(fs, f)
+		}
+	}
+	sort.Slice(fs, func(i, j int) bool { return fs[i].String() < fs[j].String() })
+	nbad, nst := 0, 0
+	for _, f := range fs {
+		for _, b := range f.Blocks {
+			for _, in := range b.Instrs {
+				st, ok := in.(*ssa.Store)
+				if !ok || !mutableRefType(st.Val.Type()) {
+					continue
+				}
+				fa, ok := st.Addr.(*ssa.FieldAddr)
+				if !ok || !isReceiverVal(f, fa.X) {
+					continue
+				}
+				nst++
+				ld, ok := st.Val.(*ssa.UnOp)
+				if !ok || ld.Op != token.MUL {
+					continue
+				}
+				fa2, ok := ld.X.(*ssa.FieldAddr)
+				if !ok || isReceiverVal(f, fa2.X) {
+					continue
+				}
+				// a field of an object this function allocated itself is not shared with anybody else
+				if base, _ := memRoot(fa2.X); base != nil {
+					if a, isAlloc := base.(*ssa.Alloc); isAlloc && a.Heap {
+						continue
+					}
+				}
+				nbad++
+				c.bad("C11.sharefield", fmt.Sprintf("%s: field %s of the receiver is not bound to storage owned by another object", fname(f), fieldName(fa)),
+					fmt.Sprintf("receives %s without a copy: both objects now refer to the same backing storage", descVal(st.Val)), p.pos(st.Pos()))
+			}
+		}
+	}
+	c.count("sharefield_stores", nst)
+	if nst < 50 {
+		c.undecided("C11.sharefield", "stores of slices / pointers into receiver fields", fmt.Sprintf("only %d found (floor 50)", nst), "")
+	}
+	if nbad == 0 {
+		c.ok("C11.sharefield", "no method binds a field of its receiver to storage loaded from another object's field", fmt.Sprintf("%d stores of slice / map / pointer values into receiver fields inspected", nst), "")
 	}
 }
